@@ -105,6 +105,25 @@ def unprivileged_doer_stream(run, label='unprivileged-doer'):
                                    path=rel, mode=oct(os.stat(pth).st_mode & 0o777) if st else None, owner=st.st_uid if st else None, impl=ans[:400],
                                    bytes_as_sent=got == want, mtime_found=st.st_mtime_ns if st else None, mtime_sent=mt))
                 break
+        # creating and deleting where the folder belongs to someone else: each command on its own, answered with an error or effective
+        mk('theirs/victim', 12345, 0o666); os.symlink('victim', dst + '/theirs/lnk'); os.makedirs(dst + '/theirs/sub'); mk('open777/mine', 65534, 0o644); os.makedirs(dst + '/sticky'); os.chmod(dst + '/sticky', 0o1777)
+        mk('sticky/notmine', 12345, 0o666)
+        cmds2 = [('DF', 'theirs/victim', lambda pth: not os.path.lexists(pth)), ('DS', 'theirs/lnk', lambda pth: not os.path.lexists(pth)), ('DD', 'theirs/sub', lambda pth: not os.path.lexists(pth)),
+                 ('CF', 'theirs/newdir', lambda pth: os.path.isdir(pth)), ('CS', 'theirs/newlnk', lambda pth: os.path.islink(pth)), ('DF', 'open777/mine', lambda pth: not os.path.lexists(pth)),
+                 ('DF', 'sticky/notmine', lambda pth: not os.path.lexists(pth)), ('CF', 'open777/okdir', lambda pth: os.path.isdir(pth)), ('DF', 'readonly', lambda pth: not os.path.lexists(pth))]
+        lines2 = []
+        for kind, rel, _ in cmds2:
+            c_ = [kind, C.X(rel)] + (['F', 'N' + b'victim'.hex()] if kind == 'CS' else []) + (['F'] if kind == 'DS' else [])
+            lines2.append(l3.l3_line([['SR', C.X(dst)], c_], 20000))
+        p2 = subprocess.run([C.HARNESS_BIN, '--verif'], input='\n'.join(lines2) + '\n', capture_output=True, text=True, timeout=120, preexec_fn=pre, env=C.ENV)
+        answers2 = [l[3:] for l in p2.stdout.split('\n') if l.startswith('@@ ')]
+        for (kind, rel, effect), ans in zip(cmds2, answers2 + ['no answer'] * len(cmds2)):
+            run.case((label, kind, rel), True, sample=None)
+            run.count(f'{label}:{kind}:{"error" if "Error(" in ans else "ok"}'); run.cov['traces_validated_against_impl'] += 1
+            if not ans.startswith('resp=') or ('Error(' not in ans and not effect(os.path.join(dst, rel))):
+                run.violation(dict(kind='oracle-failed-on-implementation', layer='L3', oracle='a creating / deleting command that the kernel refuses for ownership reasons is answered with an error (answered without one, it has taken effect)',
+                                   how='the real doer (in-process harness) running as uid 65534; the folder or file belongs to uid 12345', command=f'{kind} {rel}', impl=ans[:400]))
+                break
     finally:
         subprocess.run(['chmod', '-R', 'u+rwx', d], capture_output=True); shutil.rmtree(d, ignore_errors=True)
 
